@@ -123,6 +123,25 @@ def check_param_arg(case) -> list[Fail]:
 # ------------------------------------------------------------------ values
 
 
+def nested_docs(e):
+    """The HUGR documents nested in an encoded value (function values at any depth), with the encoder stamp
+    blanked."""
+    out = []
+
+    def walk(x):
+        if isinstance(x, dict):
+            if x.get("v") == "Function" and isinstance(x.get("hugr"), dict):
+                out.append(dict(x["hugr"], encoder=None))
+            for y in x.values():
+                walk(y)
+        elif isinstance(x, list):
+            for y in x:
+                walk(y)
+
+    walk(e)
+    return out
+
+
 def check_value(case) -> list[Fail]:
     import hugr._serialization.ops as sops
     import hugr.val as val
@@ -141,6 +160,10 @@ def check_value(case) -> list[Fail]:
         return fails + [exc_fail("decode", e)]
     if e2 != e1:
         fails.append(Fail("fixed-point", f"value:{v['k']}:{first_diff(e2, e1)}", f"{e1} -> {e2}"[:300]))
+    # function values: the nested document (nodes, edges, node metadata) comes back as a whole
+    n1, n2 = nested_docs(dump(x._to_serial_root())), nested_docs(dump(y._to_serial_root()))
+    if n1 != n2:
+        fails.append(Fail("fixed-point", f"value:{v['k']}:nested-document:{first_diff(n2, n1)}", "the body of a function value changed"))
     tx, ty = dump(x.type_()._to_serial_root()), dump(y.type_()._to_serial_root())
     tr = ref.enc_type(ref.ref_typeof(v))
     if not (tx == ty == tr):
@@ -406,8 +429,9 @@ def foreign_roundtrip(hugr, rewrites, k) -> list[Fail]:
 ORDER_KINDS = ["Call", "LoadFunc", "CallIndirect", "LoadConst", "DFG", "CFG", "Conditional", "TailLoop", "Tag", "SomeTag", "LeftTag", "RightTag", "Continue", "Break", "Custom", "MakeTuple", "UnpackTuple", "Noop", "Not", "DivMod"]
 
 
-def order_probe(op):
-    """A DFG holding one node of the given operation between a predecessor and a successor in state order."""
+def order_probe(op, extra_outs=0):
+    """A DFG holding one node of the given operation between a predecessor and a successor in state order;
+    extra_outs > 0: the node is created with more output ports than its signature has."""
     import hugr.ops as hops
     import hugr.tys as htys
     from hugr.build.dfg import Dfg
@@ -420,7 +444,7 @@ def order_probe(op):
     h = d.hugr
     mk = lambda name: hops.Custom(name, htys.FunctionType([], []), extension="verif.ext")  # noqa: E731
     a = h.add_node(mk("before"), d.parent_node)
-    x = h.add_node(mk_op(op), d.parent_node)
+    x = h.add_node(mk_op(op), d.parent_node, num_outs=(len(sig["outs"] or []) + extra_outs) if extra_outs else None)
     b = h.add_node(mk("after"), d.parent_node)
     if sig["order_in"]:
         h.add_order_link(a, x)
@@ -438,13 +462,13 @@ def check_order_ports(case) -> list[Fail]:
     from hugr.build.dfg import Dfg
 
     op = case["op"]
-    h = order_probe(op)
+    h = order_probe(op, case.get("extra", 0))
     return [Fail(f_.clause, f"{op['k']}:{f_.locus}", f_.msg) for f_ in foreign_roundtrip(h, case["rewrites"], case["k"])]
 
 
 def order_ports_strategy(tier):
     ops_ = st.one_of(asts.op_asts(2, kinds=ORDER_KINDS), asts.op_asts(2, kinds=["Call", "LoadFunc", "LoadConst", "CallIndirect"]), asts.rowpoly_calls(2), asts.ext_ops(1))
-    return st.fixed_dictionaries({"op": ops_, "rewrites": st.sampled_from([[], [0], [0], [0, 4], [3, 0]]), "k": st.integers(0, 5)})
+    return st.fixed_dictionaries({"op": ops_, "rewrites": st.sampled_from([[], [0], [0], [0, 4], [3, 0]]), "k": st.integers(0, 5), "extra": st.sampled_from([0, 0, 1, 2])})
 
 
 def _with_extra(base, doc):
